@@ -43,6 +43,8 @@ def _case(draw):
         "psi_dot": draw(gen.vec3(-2, 1, allow_zero=False)),
         "r": draw(gen.vec3(-2, 1)),
         "P": draw(gen.quat(-2, 2)),
+        # arguments as fresh arrays, or as views into a work buffer that is overwritten between calls (q[3:], h[3:])
+        "call": draw(st.sampled_from(["fresh", "fresh", "buffer"])),
     }
 
 
@@ -62,7 +64,10 @@ def static_cases(tier):
 
 def check(spec):
     import mpmath as mp
-    from cardillo.math import rotations as rot
+    from cardillo.math import rotations as _rot
+    from harness.callconv import Proxy
+
+    rot = Proxy(_rot, spec.get("call", "fresh"))
 
     res = Result()
     psi = np.array(spec["psi"], dtype=float)
@@ -85,22 +90,29 @@ def check(spec):
         if err > tol:
             res.fail("derivative", site, err, feats, f"err={err:.3e} tol={tol:.1e} angle={a:.3e}")
 
-    # Exp_SO3_psi
-    cmp("Exp_SO3_psi", rot.Exp_SO3_psi(psi), mpref.diff_array(mpref.exp_so3, mpsi))
-    # T_SO3_psi
-    cmp("T_SO3_psi", rot.T_SO3_psi(psi), mpref.diff_array(mpref.t_so3, mpsi))
-    # T_SO3_inv_psi
-    cmp("T_SO3_inv_psi", rot.T_SO3_inv_psi(psi), mpref.diff_array(mpref.t_so3_inv, mpsi))
-    # T_SO3_dot = d/dt T_SO3(psi + t psi_dot)
-    mpd = mpref.mpv(pd)
-    h = mp.mpf(10) ** (-12) * max(1, mpref.norm(mpsi)) / max(1, mpref.norm(mpd))
-    Tp = mpref.t_so3([x + h * y for x, y in zip(mpsi, mpd)])
-    Tm = mpref.t_so3([x - h * y for x, y in zip(mpsi, mpd)])
-    cmp("T_SO3_dot", rot.T_SO3_dot(psi, pd), mpref.to_np((Tp - Tm) / (2 * h)))
-    # Exp_SE3_h
+    # the closed-form derivatives, at psi and then at a second rotation vector 0.6 psi (consecutive evaluations, as a
+    # Newton iteration or a work buffer that is rescaled in place produces them)
+    psi_first, mpsi_first = psi, mpsi
+    for psi, mpsi in ((psi_first, mpsi_first), (0.6 * psi_first, mpref.mpv(0.6 * psi_first))):
+        # Exp_SO3_psi
+        cmp("Exp_SO3_psi", rot.Exp_SO3_psi(psi), mpref.diff_array(mpref.exp_so3, mpsi))
+        # T_SO3_psi
+        cmp("T_SO3_psi", rot.T_SO3_psi(psi), mpref.diff_array(mpref.t_so3, mpsi))
+        # T_SO3_inv_psi
+        cmp("T_SO3_inv_psi", rot.T_SO3_inv_psi(psi), mpref.diff_array(mpref.t_so3_inv, mpsi))
+        # T_SO3_dot = d/dt T_SO3(psi + t psi_dot)
+        mpd = mpref.mpv(pd)
+        h = mp.mpf(10) ** (-12) * max(1, mpref.norm(mpsi)) / max(1, mpref.norm(mpd))
+        Tp = mpref.t_so3([x + h * y for x, y in zip(mpsi, mpd)])
+        Tm = mpref.t_so3([x - h * y for x, y in zip(mpsi, mpd)])
+        cmp("T_SO3_dot", rot.T_SO3_dot(psi, pd), mpref.to_np((Tp - Tm) / (2 * h)))
+        # Exp_SE3_h
+        hh = np.concatenate([r, psi])
+        mh = mpref.mpv(hh)
+        cmp("Exp_SE3_h", rot.Exp_SE3_h(hh), mpref.diff_array(mpref.exp_se3, mh))
+    psi, mpsi = psi_first, mpsi_first
     hh = np.concatenate([r, psi])
     mh = mpref.mpv(hh)
-    cmp("Exp_SE3_h", rot.Exp_SE3_h(hh), mpref.diff_array(mpref.exp_se3, mh))
 
     # Log_SO3_A on the tangent space of SO(3)
     A = mpref.exp_so3(mpsi)
